@@ -319,7 +319,7 @@ func (r *runner) runAll() {
 	// F1: directive grammar x scalar pool (bounded-exhaustive); delimiters on a sub-pool
 	// quick tier: every value meets every third directive of the grammar (the residue moves with the
 	// seed and the value), thorough: all of them
-	coqBudget := 1500
+	coqBudget := 1100
 	step := 3
 	if thorough {
 		coqBudget = 12000
@@ -373,7 +373,7 @@ func (r *runner) runAll() {
 		if g.Chance(1, 5) {
 			v = containers[g.Intn(len(containers))]
 		}
-		r.one(v, sStr(randomDirectiveText(g)), "near-grammar", i < 400)
+		r.one(v, sStr(randomDirectiveText(g)), "near-grammar", i < 300)
 	}
 	// permutations of the flag sets with the same meaning
 	for i := 0; i < nJunk/3; i++ {
@@ -394,7 +394,7 @@ func (r *runner) runAll() {
 				for _, p := range []int{-1, 2} {
 					for _, l := range "ahspdxq" {
 						idx++
-						r.one(v, sStr(Directive{Flags: fl, Width: w, Prec: p, Letter: byte(l)}.String()), "container", idx%23 == 0)
+						r.one(v, sStr(Directive{Flags: fl, Width: w, Prec: p, Letter: byte(l)}.String()), "container", idx%31 == 0)
 					}
 				}
 			}
@@ -407,7 +407,7 @@ func (r *runner) runAll() {
 
 	// F4: per-type format maps x random values
 	nMaps := 20000
-	mapsCoq := 500
+	mapsCoq := 400
 	if thorough {
 		nMaps = 300000
 		mapsCoq = 4000
@@ -420,7 +420,7 @@ func (r *runner) runAll() {
 
 	// F5: seeded random scalars x random directives
 	nRand := 60000
-	randCoq := 600
+	randCoq := 450
 	if thorough {
 		nRand = 1500000
 		randCoq = 5000
